@@ -110,11 +110,13 @@ def run_scenarios(scenarios, wd, name="sc", per_scenario_timeout=20.0):
         _truncate_partial(out)
         with open(out, "a") as f:
             sid = scenarios[done].get("id", "?")
-            f.write(json.dumps({"ev": "begin", "sc": sid, "n": 0}) + "\n")
-            f.write(json.dumps({"ev": "worker", "sc": sid, "i": -1,
-                                "res": {"k": "hang" if hung else "abort", "rc": rc}, "obs": {},
-                                "hooklog": []}) + "\n")
-            f.write(json.dumps({"ev": "end", "sc": sid}) + "\n")
+            # (compact separators: the "end" lines are counted by prefix above, synthetic ones included)
+            cj = lambda o: json.dumps(o, separators=(",", ":"))
+            f.write(cj({"ev": "begin", "sc": sid, "n": 0}) + "\n")
+            f.write(cj({"ev": "worker", "sc": sid, "i": -1,
+                        "res": {"k": "hang" if hung else "abort", "rc": rc}, "obs": {},
+                        "hooklog": []}) + "\n")
+            f.write(cj({"ev": "end", "sc": sid}) + "\n")
         skip = done + 1
     events = []
     with open(out) as f:
